@@ -109,7 +109,7 @@ func runTool(dir string, timeout time.Duration, name string, args ...string) (st
 
 func init() {
 	Register(&Check{ID: "C20", Level: "exploration",
-		Rule: "one case = one generated workflow whose files live in the working directory, run on the simulator under one tape-chosen schedule with a clock granularity of 1 ns / 1 ms / 15 ms (commands last at least one granule, so dependent tasks keep distinct start times while concurrently started ones share them), optionally as a resumed history (RunTo prefix, then Run: ancestor records loaded from disk); the resulting tree is exported to a scratch directory and the REAL scipipe CLI built from /repo converts the audit file of a tape-chosen output with audit2html, audit2tex and audit2bash; one case in six instead converts a directly generated audit tree (1..12 records, fan-in <= 3, ancestors shared through several paths, source records with zero times, start times increasing / all equal / all zero / tied / decreasing towards the root; listings only). Oracle: each report lists every record ID of the lineage (read independently from the JSON) exactly once, in non-decreasing StartTime order, tasks with their command, parameters and tags; the generated script, run by the real bash in a directory holding only the source files (with a native twin of the workload command), re-creates the file byte-identically. distinct = event-log hash; non-trivial = lineage of >=3 records and >=1 non-default choice",
+		Rule: "one case = one generated workflow whose files live in the working directory, run on the simulator under one tape-chosen schedule with a clock granularity of 1 ns / 1 ms / 15 ms (commands last at least one granule, so dependent tasks keep distinct start times while concurrently started ones share them), optionally as a resumed history (RunTo prefix, then Run; or killed at a tape-chosen crash state, temp directories removed, run again: ancestor records loaded from disk); the resulting tree is exported to a scratch directory and the REAL scipipe CLI built from /repo converts the audit file of a tape-chosen output with audit2html, audit2tex and audit2bash; one case in six instead converts a directly generated audit tree (1..12 records, fan-in <= 3, ancestors shared through several paths, source records with zero times, start times increasing / all equal / all zero / tied / decreasing towards the root; listings only). Oracle: each report lists every record ID of the lineage (read independently from the JSON) exactly once, in non-decreasing StartTime order, tasks with their command, parameters and tags; the generated script, run by the real bash in a directory holding only the source files (with a native twin of the workload command), re-creates the file byte-identically. distinct = event-log hash; non-trivial = lineage of >=3 records and >=1 non-default choice",
 		Run: func(c *Case) Verdict {
 			cli, opBin := os.Getenv("VERIF_CLI"), os.Getenv("VERIF_OP")
 			if exe, err := os.Executable(); err == nil {
@@ -147,10 +147,43 @@ func init() {
 			if gran > 0 {
 				c.Fault("coarse-clock")
 			}
-			resumed := c.Tape.Choose(simrt.StGen, 3, 0) == 1
+			hist := c.Tape.Choose(simrt.StGen, 4, 0)
+			resumed := hist == 1
 			opts := IncOpts{KillAt: -1, Strategy: strategyOf(c.Tape), Trace: c.Trace, ClockGran: gran, MinDur: gran}
 			var final *simrt.Inode
-			if resumed {
+			if hist == 2 {
+				// history: the run is killed at a tape-chosen crash state, the temp
+				// directories are removed and the workflow is run again: part of the
+				// lineage is then loaded from disk
+				resumed = true
+				o1 := opts
+				o1.Snapshots = true
+				inc1 := RunInc(w, c.Tape, nil, 0, o1)
+				c.Absorb(inc1)
+				if v := flowOracle(inc1, ex); v.Status != "ok" {
+					return foreign(v)
+				}
+				if len(inc1.Snaps) == 0 {
+					c.Probe("trivial-case")
+					return OK()
+				}
+				sn := inc1.Snaps[c.Tape.Choose(simrt.StKill, len(inc1.Snaps), 0)]
+				c.Fault("kill@state")
+				opts2 := opts
+				opts2.Strategy = strategyOf(c.Tape)
+				inc2 := RunInc(w, c.Tape, Cleanup(sn.Root), sn.NextIno, opts2)
+				c.Absorb(inc2)
+				if v, ok := inconclusiveEnd(inc2); ok {
+					return v
+				}
+				if !completedOK(inc2) {
+					return Skipped(Viol("resume-no-completion", "", "re-run after kill + cleanup does not complete: %s", endDesc(inc2)))
+				}
+				if cl, d := checkFinalFiles(inc2.Sim.FS.Root, ex, false); cl != "" {
+					return Skipped(Viol(cl, "", "after kill, cleanup and re-run: %s", d))
+				}
+				final = inc2.Sim.FS.Root
+			} else if resumed {
 				var procs []string
 				for _, n := range w.Nodes {
 					if n.Kind == KProc && len(n.Outs) > 0 {
